@@ -3,8 +3,10 @@ from simcheck import sim_check
 
 
 def run(tier, seed, replay):
-    kws = [dict(burst=0.1, max_size=1), dict(burst=0.08, max_size=30, nclients=2), dict(track=True), dict(weights=dict(drop=2.0, deliver=3.0)), dict(nclients=3, max_size=30), dict(rel=True), dict(rel=True, max_size=1, nclients=2)]
+    kws = [dict(burst=0.1, max_size=1), dict(burst=0.08, max_size=30, nclients=2), dict(track=True), dict(weights=dict(drop=2.0, deliver=3.0)), dict(nclients=3, max_size=30), dict(rel=True), dict(rel=True, max_size=1, nclients=2),
+           dict(burst=0.1, max_size=1, timeout=40, quiet_tail=0.8), dict(burst=0.1, max_size=30, timeout=60, nclients=2, weights=dict(drop=2.0), quiet_tail=0.8), dict(timeout=100, track=True, max_size=1, quiet_tail=0.8),
+           dict(max_size=1, quiet_tail=1.0, length=25), dict(max_size=1, quiet_tail=1.0, length=40, nclients=2, policy="all")]
     return sim_check("C11", tier, seed, kws, n_quick=200, n_thorough=20000, oracle_props={"C11", "C01"},
                      rule_extra=", acknowledgements delayed or held back, mutate messages dropped; the last settle tick must be silent (exactly one empty message per client with tracking)",
-                     extra_assumptions=["acknowledgement timeouts (cleanup_acks) are covered by the theorem C11_late_ack_after_cleanup_is_junk; the wall-clock timer itself is not driven by the scripts",
+                     extra_assumptions=["acknowledgement timeouts: some scenarios run with mutations_timeout of 40-100 ms against frame times of 0-50 ms, so in-flight records expire before their acknowledgement; whether the repeating timer of cleanup_acks fires in a frame is an oracle input of the model, taken from a mirror of the same Timer in the harness",
                                         "relation graphs (sync_related_entities) are part of the pool: an idle server with registered graphs must stay silent (D07 regression)"])
